@@ -90,10 +90,12 @@ def _config_file_major_version(file: TextIO) -> VersionNumber:
         if type(root_node) is barectf_config_parse_common._ConfigNodeV3:
             # barectf 3 configuration file
             return VersionNumber(3)
-        else:
+        elif type(root_node) is collections.OrderedDict:
             # barectf 2 configuration file
-            assert type(root_node) is collections.OrderedDict
             return VersionNumber(2)
+        else:
+            raise _ConfigurationParseError('Configuration',
+                                           f'Root (configuration) node is not an object (it\'s a `{type(root_node)}`)')
     except _ConfigurationParseError as exc:
         barectf_config_parse_common._append_error_ctx(exc, 'Configuration', 'Cannot load YAML file')
 
